@@ -35,15 +35,57 @@ TAXA_U = ["A", "B", "C"]
 # last one dropped: [A, B, C + AB] = [0.125, 0.25, 0.875]
 BL_U = [0.125, 0.25, 0.875]
 
-NEWICK_T = "(((A:1,B:0.5):1,C:1.5):0.5,D:2.5);"  # consistent with DATES_T; internal heights 1, 2, 2.5
-DATES_T = {"A": 0.0, "B": 0.5, "C": 0.5, "D": 0.0}  # "time starts at 0": heights = dates
-DATES_Y = {"A": 2000.0, "B": 1999.5, "C": 1999.5, "D": 2000.0}  # "time is a year": heights = max - date
+# every per-taxon payload is ASYMMETRIC (four distinct dates, distinct leaf branches): attaching it to the taxa in any
+# other order changes an observable
+NEWICK_T = "(((A:1,B:0.5):1,C:1.75):0.5,D:1.75);"  # consistent with DATES_T; internal heights 1, 2, 2.5
+DATES_T = {"A": 0.0, "B": 0.5, "C": 0.25, "D": 0.75}  # "time starts at 0": heights = dates
+DATES_Y = {"A": 2000.0, "B": 1999.5, "C": 1999.75, "D": 1999.25}  # "time is a year": heights = max - date
 HEIGHTS_T = [1.0, 2.0, 2.5]
 OTHER_HEIGHTS = [1.5, 3.0, 4.0]  # valid heights different from the newick's
 RATIOS_T = [0.25, 0.5]
 ROOT_T = [4.0]
-SHIFTS_T = [0.5, 1.0, 0.5]
+SHIFTS_T = [0.5, 1.0, 0.25]
 NEWICK_ND = "(((A:0.1,B:0.3):0.7,C:0.9):0.3,D:1.1);"  # non-dyadic lengths, contemporaneous taxa
+
+# ---- taxon NAMES.  The fixtures above are written with the placeholders A..D in the order of the leaf indices (the
+# insertion order of the taxa dictionary / the order of the Taxon list).  Every tree variant runs once per name set; in
+# the last two the insertion order differs from the sorted, the reverse-sorted, the case-folded and the natural
+# (numeric) order of the names, so a helper or loader that re-orders taxa by ANY of these conventions attaches the
+# positional payloads (branch lengths, dates -> sampling times, per-branch rates) to other taxa than direct construction
+NAMESETS = {
+    "A-D": {"A": "A", "B": "B", "C": "C", "D": "D"},
+    "words": {"A": "zebra", "B": "Mouse", "C": "human", "D": "cat"},       # sorted: Mouse cat human zebra
+    # (names that differ only in case are not used: dendropy matches newick labels case-insensitively)
+    "numeric": {"A": "t2", "B": "10", "C": "T1", "D": "9"},                # sorted: 10 9 T1 t2; natural: 9 10 T1 t2
+}
+# one sequence per placeholder (distinct columns: every pair of taxa differs somewhere)
+SEQS = {"A": "ACGTTGCAACGTACGA", "B": "ACGTTGCTACGAACTA", "C": "ACCTTGCTACGAATGC", "D": "TCCTAGCTACGAGTGG"}
+
+
+def ren(x, m):
+    """rename the placeholders A..D in a newick string / the keys of a dict / the items of a list, simultaneously"""
+    import re
+
+    if m is None:
+        return x
+    if isinstance(x, str):
+        return re.sub(r"(?<=[(,])([A-D])(?=[:,)])", lambda k: m[k.group(1)], x)
+    if isinstance(x, dict):
+        return {m.get(k, k): v for k, v in x.items()}
+    return [m.get(k, k) for k in x]
+
+
+def for_names(builder):
+    """register a tree variant once per name set"""
+    def wrapped(*a, **kw):
+        name_pos = 1 if builder.__name__ in ("_timetree", "_with_tree") else 0
+        for label, m in NAMESETS.items():
+            a2 = list(a)
+            if label != "A-D":
+                a2[name_pos] = f"{a2[name_pos]},names={label}"
+            builder(*a2, names=m, **kw)
+    wrapped.__name__ = builder.__name__
+    return wrapped
 
 
 def _imports():
@@ -54,7 +96,12 @@ def _imports():
     from torchtree.distributions.deterministic_normal import DeterministicNormal
     from torchtree.distributions.distributions import Distribution
     from torchtree.distributions.scale_mixture import ScaleMixtureNormal
+    from torchtree.evolution.alignment import Alignment, Sequence
     from torchtree.evolution.branch_model import SimpleClockModel
+    from torchtree.evolution.datatype import NucleotideDataType
+    from torchtree.evolution.site_model import ConstantSiteModel
+    from torchtree.evolution.site_pattern import SitePattern
+    from torchtree.evolution.substitution_model import JC69
     from torchtree.evolution.taxa import Taxa, Taxon
     from torchtree.evolution.tree_model import (
         ReparameterizedTimeTreeModel,
@@ -63,6 +110,7 @@ def _imports():
         initialize_dates_from_taxa,
         parse_tree,
     )
+    from torchtree.evolution.tree_likelihood import TreeLikelihoodModel
     from torchtree.evolution.tree_model_flexible import FlexibleTimeTreeModel
 
     return types.SimpleNamespace(**locals())
@@ -241,16 +289,18 @@ _view_variant("slice -1::-1:ref", "ref", "-1::-1", lambda T: T.torch.tensor([4, 
 
 
 # ---- UnRootedTreeModel -------------------------------------------------------------------------------
-def _unrooted(name, bl, taxa, kwargs=None, documented=True, newick=NEWICK_U, expect_bl=None, dtype=None):
+@for_names
+def _unrooted(name, bl, taxa, kwargs=None, documented=True, newick=NEWICK_U, expect_bl=None, dtype=None, names=None):
     """bl: 'list' | 'dict' | 'ref'; taxa: 'dict' | 'list' | 'ref'"""
     kwargs = kwargs or {}
     given = [0.5, 0.25, 1.0]
+    newick = ren(newick, names)
 
     @variant("UnRootedTreeModel", name, documented)
     def v(T):
         bl_id = kwargs.get("branch_lengths_id", "branch_lengths") if bl == "list" else "bl"
         taxa_id = kwargs.get("taxa_id", "taxa") if taxa != "ref" else "TX"
-        dates = {k: 0.0 for k in TAXA_U}
+        dates = ren({k: 0.0 for k in TAXA_U}, names)
         pre = []
         if bl == "list":
             bl_arg = given
@@ -278,7 +328,7 @@ def _unrooted(name, bl, taxa, kwargs=None, documented=True, newick=NEWICK_U, exp
 
         return dict(args={"id_": "tree", "newick": newick, "branch_lengths": bl_arg, "taxa": taxa_arg, **kwargs},
                     pre=pre, make=lambda: T.UnRootedTreeModel.json_factory("tree", newick, bl_arg, taxa_arg, **kwargs),
-                    direct=direct, kind="tree")
+                    direct=direct, kind="tree", names=names)
 
     return v
 
@@ -298,12 +348,14 @@ _unrooted("bl-dict-f64,taxa-dict,keep_branch_lengths,non-dyadic", "dict", "dict"
 
 
 # ---- TimeTreeModel / FlexibleTimeTreeModel -----------------------------------------------------------
+@for_names
 def _timetree(helper, name, heights, taxa, kwargs=None, documented=True, dates=DATES_T, newick=NEWICK_T, dtype=None,
-              f64_heights=False):
+              f64_heights=False, names=None):
     """heights: 'list' | 'tuple' | 'dict' | 'ref'; taxa: 'dict' | 'list' | 'ref'.
     f64_heights: with keep_branch_lengths, take the directly constructed heights from an independent float64
     computation instead of the newick constants"""
     kwargs = kwargs or {}
+    dates, newick = ren(dates, names), ren(newick, names)
 
     @variant(helper, name, documented)
     def v(T):
@@ -344,7 +396,7 @@ def _timetree(helper, name, heights, taxa, kwargs=None, documented=True, dates=D
 
         return dict(args={"id_": "tree", "newick": newick, "internal_heights": h_arg, "taxa": taxa_arg, **kwargs},
                     pre=pre, make=lambda: klass.json_factory("tree", newick, h_arg, taxa_arg, **kwargs),
-                    direct=direct, kind="timetree", exact=not f64_heights)
+                    direct=direct, kind="timetree", exact=not f64_heights, names=names)
 
     return v
 
@@ -374,12 +426,14 @@ _timetree("FlexibleTimeTreeModel", "heights-tuple,taxa-dict", "tuple", "dict", {
 
 
 # ---- ReparameterizedTimeTreeModel --------------------------------------------------------------------
+@for_names
 def _reparam(name, mode, form, taxa, kwargs=None, documented=True, dates=DATES_T, dtype=None, newick=NEWICK_T,
-             f64_heights=False):
+             f64_heights=False, names=None):
     """mode: 'ratios' | 'shifts'; form: 'list' | 'tuple' | 'dict' | 'ref' (of ratios/root_height or shifts).
     f64_heights: with keep_branch_lengths, the expected node heights are plain float64 sums of the newick lengths
     (compared with rtol) instead of the constants of NEWICK_T"""
     kwargs = kwargs or {}
+    dates, newick = ren(dates, names), ren(newick, names)
 
     @variant("ReparameterizedTimeTreeModel", name, documented)
     def v(T):
@@ -443,7 +497,7 @@ def _reparam(name, mode, form, taxa, kwargs=None, documented=True, dates=DATES_T
 
         return dict(args={"id_": "tree", "newick": newick, "taxa": taxa_arg, **hk, **kwargs}, pre=pre,
                     make=lambda: T.ReparameterizedTimeTreeModel.json_factory("tree", newick, taxa_arg, **hk, **kwargs),
-                    direct=direct, kind="reparam", exact=not f64_heights)
+                    direct=direct, kind="reparam", exact=not f64_heights, names=names)
 
     return v
 
@@ -475,35 +529,36 @@ _reparam("shifts-dict-f64,taxa-dict,keep_branch_lengths,non-dyadic", "shifts", "
 
 
 # ---- SimpleClockModel / CTMCScale (need a tree) ------------------------------------------------------
-def _tree_spec(T, id_="tree"):
-    return T.TimeTreeModel.json_factory(id_, NEWICK_T, pspec("heights", HEIGHTS_T, F64), DATES_T)
+def _tree_spec(T, id_="tree", names=None):
+    return T.TimeTreeModel.json_factory(id_, ren(NEWICK_T, names), pspec("heights", HEIGHTS_T, F64), ren(DATES_T, names))
 
 
-def _tree_direct(T, id_="tree"):
-    tx = mk_taxa(T, "taxa", DATES_T)
-    tree = T.parse_tree(tx, {"newick": NEWICK_T})
+def _tree_direct(T, id_="tree", names=None):
+    tx = mk_taxa(T, "taxa", ren(DATES_T, names))
+    tree = T.parse_tree(tx, {"newick": ren(NEWICK_T, names)})
     T.initialize_dates_from_taxa(tree, tx)
     p = T.Parameter("heights", T.torch.tensor(HEIGHTS_T, dtype=T.torch.float64))
     tm = T.TimeTreeModel(id_, tree, tx, p)
     return tm, {id_: tm, "heights": p, **reg_taxa(tx)}
 
 
-def _with_tree(helper, name, tree_form, rate_form, rate_values, kind, documented=True):
+@for_names
+def _with_tree(helper, name, tree_form, rate_form, rate_values, kind, documented=True, names=None):
     """tree_form / rate_form: 'dict' | 'ref'"""
 
     @variant(helper, name, documented)
     def v(T):
         klass = getattr(T, helper)
         pre = []
-        tree_arg = _tree_spec(T) if tree_form == "dict" else "tree"
+        tree_arg = _tree_spec(T, names=names) if tree_form == "dict" else "tree"
         if tree_form == "ref":
-            pre.append(_tree_spec(T))
+            pre.append(_tree_spec(T, names=names))
         rate_arg = pspec("rate", rate_values, F64) if rate_form == "dict" else "rate"
         if rate_form == "ref":
             pre.append(pspec("rate", rate_values, F64))
 
         def direct():
-            tm, reg = _tree_direct(T)
+            tm, reg = _tree_direct(T, names=names)
             r = T.Parameter("rate", T.torch.tensor(rate_values, dtype=T.torch.float64))
             if helper == "SimpleClockModel":
                 o = T.SimpleClockModel("obj", r, tm)
@@ -517,7 +572,7 @@ def _with_tree(helper, name, tree_form, rate_form, rate_values, kind, documented
         else:
             make = lambda: klass.json_factory("obj", rate_arg, tree_arg)  # noqa: E731
             args = {"id_": "obj", "rate": rate_arg, "tree": tree_arg}
-        return dict(args=args, pre=pre, make=make, direct=direct, kind=kind)
+        return dict(args=args, pre=pre, make=make, direct=direct, kind=kind, names=names)
 
     return v
 
@@ -842,7 +897,70 @@ def _registry_cmp(T, dic, reg, top_l):
     return out
 
 
-def _compare(T, kind, lo, do, dic, reg, exact=True):
+def _by_name(T, tm):
+    """what a tree model attaches to each TAXON, keyed by the taxon's name: leaf index (of the model's taxa and of the
+    node of the parsed tree), the length of the leaf's branch, its sampling time"""
+    names = list(tm.taxa)
+    out = {"leaf index": {nm: i for i, nm in enumerate(names)},
+           "leaf index of the tree node": {n.taxon.label: n.index for n in tm.tree.leaf_node_iter()}}
+    bl = tm.branch_lengths().detach()
+    out["leaf branch length"] = {nm: bl[..., i].tolist() for i, nm in enumerate(names)}
+    if hasattr(tm, "sampling_times"):
+        st = tm.sampling_times.detach()
+        out["sampling time"] = {nm: st[..., i].tolist() for i, nm in enumerate(names)}
+        nh = tm.node_heights.detach()
+        out["leaf height"] = {nm: nh[..., i].tolist() for i, nm in enumerate(names)}
+    return out
+
+
+def _loglik(T, tm, names, clock=None):
+    """JC69 tree log likelihood of the fixed alignment SEQS (keyed by taxon name) on the tree model; a time tree gets
+    a clock with a DIFFERENT rate on every branch (indexed by node index, like the branch lengths)"""
+    torch = T.torch
+    m = names or NAMESETS["A-D"]
+    taxa = tm._taxa
+    have = [t.id for t in taxa]
+    seqs = [T.Sequence(m[k], SEQS[k]) for k in sorted(SEQS) if m[k] in have]
+    aln = T.Alignment("aln", seqs, taxa, T.NucleotideDataType(None))
+    if clock is None and hasattr(tm, "sampling_times"):
+        n = 2 * len(have) - 2
+        r = torch.tensor(([0.5, 0.25, 1.0, 2.0, 0.125, 0.75] * n)[:n], dtype=tm.branch_lengths().dtype)
+        clock = T.SimpleClockModel("clk", T.Parameter("clk.rates", r), tm)
+    like = T.TreeLikelihoodModel("like", T.SitePattern("sp", aln), tm, T.JC69("jc"), T.ConstantSiteModel("sm"), clock)
+    return like()
+
+
+def _tree_extras(T, lo, do, names, exact=True, clocks=(None, None)):
+    """positional payloads compared BY TAXON NAME, and a likelihood value.  clocks: the (loaded, direct) clock models
+    when the helper under test is the clock's"""
+    out = []
+    a, b = _by_name(T, lo), _by_name(T, do)
+    for side, clk in zip((a, b), clocks):
+        if clk is not None:
+            r = clk.rates.detach()
+            side["rate of the leaf branch"] = {nm: r[..., i].tolist() for i, nm in enumerate(list(clk.tree.taxa))}
+    for k in b:
+        if a.get(k) != b[k]:
+            if exact or not isinstance(next(iter(b[k].values()), None), float) or any(
+                    x not in a.get(k, {}) or abs(a[k][x] - b[k][x]) > RTOL * abs(b[k][x]) for x in b[k]):
+                out.append(f"{k} by taxon name: loaded {a.get(k)} vs direct {b[k]}")
+    sides = {}
+    for nm, o, clk in (("loaded", lo, clocks[0]), ("direct", do, clocks[1])):
+        try:
+            sides[nm] = _loglik(T, o, names, clk)
+        except Exception as e:  # noqa: BLE001
+            sides[nm] = _exc(e)
+    la, lb = sides["loaded"], sides["direct"]
+    if isinstance(la, str) or isinstance(lb, str):
+        if la != lb:   # (both raising alike: the class cannot be used in a likelihood this way; not a difference)
+            out.append(f"JC69 tree log likelihood: loaded {la if isinstance(la, str) else la.tolist()} vs direct "
+                       f"{lb if isinstance(lb, str) else lb.tolist()}")
+    else:
+        out += _teq(T, la, lb, "JC69 tree log likelihood", exact)
+    return out
+
+
+def _compare(T, kind, lo, do, dic, reg, exact=True, names=None):
     """lo: loaded object, do: directly constructed object"""
     out = []
     if type(lo) is not type(do):
@@ -878,6 +996,7 @@ def _compare(T, kind, lo, do, dic, reg, exact=True):
                 out.append(f"transform: loaded {type(lo.transform).__name__} vs direct {type(do.transform).__name__}")
             out += _teq(T, lo(), do(), "log|det J| = obj()", exact)
             out += _teq(T, lo._internal_heights.tensor, do._internal_heights.tensor, "ratios/root or shifts", exact)
+        out += _tree_extras(T, lo, do, names, exact)
     elif kind == "callable":
         out += _teq(T, lo(), do(), "obj()")
         if tuple(lo.sample_shape) != tuple(do.sample_shape):
@@ -896,6 +1015,7 @@ def _compare(T, kind, lo, do, dic, reg, exact=True):
             out.append(f"tree: loaded {lo.tree.id!r} vs direct {do.tree.id!r}")
         else:
             out += _teq(T, lo.tree.branch_lengths(), do.tree.branch_lengths(), "tree.branch_lengths()")
+            out += _tree_extras(T, lo.tree, do.tree, names, clocks=(lo, do))
         if tuple(lo.sample_shape) != tuple(do.sample_shape):
             out.append(f"sample_shape: loaded {tuple(lo.sample_shape)} vs direct {tuple(do.sample_shape)}")
     else:
@@ -990,7 +1110,8 @@ def run_variant(T, U, fn):
             # ---- compare
             if lo is not None and do is not None:
                 try:
-                    diffs += _compare(T, plan["kind"], lo, do, dic, reg, exact=plan.get("exact", True))
+                    diffs += _compare(T, plan["kind"], lo, do, dic, reg, exact=plan.get("exact", True),
+                                      names=plan.get("names"))
                 except Exception as e:  # noqa: BLE001
                     # who raises?  evaluate each side alone
                     sides = {}
